@@ -4,8 +4,8 @@ from oblib import ob
 
 BOUNDS = {
     "quick": "Differential run of v1.{Valid,Compact,Indent,HTMLEscape} and the standard library's encoding/json source on the same "
-             "symbolic bytes. Inside: every byte string of length <=2 (Valid, Compact, Indent with (prefix,indent) = (\"\",\"\") and "
-             "(\">\",\"x\")) resp. <=3 (HTMLEscape); every string of length 4 over Sigma24 = {}[]:,\"\\/u019-+.eEantflsr space newline "
+             "symbolic bytes. Inside: every byte string of length <=2 (Valid, Compact, Indent with (prefix,indent) = (\">\",\"x\")) "
+             "resp. <=1 (Indent with (\"\",\"\")) resp. <=3 (HTMLEscape); every string of length 4 over Sigma24 = {}[]:,\"\\/u019-+.eEantflsr space newline "
              "(Valid, Compact); Indent for the five (prefix,indent) pairs (\"\",\"\") (\"\",\"\\t\") (\"\",\"  \") (\">\",\"x\") (\"p\",\" \") and "
              "additionally (\">\",\"\") on every string of length 4 over {}[]:,\"a1 space and on skeletons with 1-3 unconstrained bytes "
              "(trailing whitespace after a scalar, array element, object member value); Valid/Compact/HTMLEscape skeletons listed in the "
@@ -25,15 +25,15 @@ ASSUMPTIONS = [
 
 AR = ["accept", "reject"]
 PAIRS = [("", ""), ("", "\t"), ("", "  "), (">", "x"), ("p", " "), (">", "")]
-NONBLANK = (3, 4, 5)
 # skeletons for Valid / Compact ('?' = unconstrained byte)
-VT_Q = ['[?,?]', '{"?":?}', '-?.?e??', 'tru?', '"\\??"', ' ?1? ']
-VT_T = VT_Q + ['fals?', 'nul?', '"\\u????"', '{"a":?,"b":?}', '[[?]]?', '[?,?,?]', '{"a":{"?":?}}', '??.??', '"??"?', '[1e?,-?]']
+VT_Q = ['[?,?]', '{"?":?}', 'tru?', '"\\??"', '{"?":1,"?":2}']
+VT_T = VT_Q + ['-?.?e??', ' ?1? ', 'fals?', 'nul?', '"\\u????"', '{"a":?,"b":?}', '[[?]]?', '[?,?,?]', '{"a":{"?":?}}', '??.??', '"??"?', '[1e?,-?]']
 # skeletons for Indent
 IT_Q = ['1??', '[1,?]', '{"a":?}']
 IT_T = IT_Q + ['[?]??', '[1]???', '{"a":[?]}?', ' [?, ?]\n', '[{}?[]?1]', '{"a":1}\n? ']
-HT_Q = ['"?<?"', '?\xe2\x80?', '\xe2?\xa8?']
-HT_T = HT_Q + ['?\xe2\x80\xa8?', '??\xe2\x80?', '\xe2\x80??', '&?>?<', '\xe2\xe2\x80\xa9?', '?\xe2?\xa9']
+# HTMLEscape skeletons: X, Y, Z, W stand for the bytes 0xE2, 0x80, 0xA8, 0xA9 (string arguments must stay ASCII)
+HT_Q = ['"?<?"', '?XY?', 'X?Z?']
+HT_T = HT_Q + ['?XYZ?', '??XY?', 'XY??', '&?>?<', 'XXYW?', '?X?W']
 
 
 def obligations(tier):
@@ -50,29 +50,19 @@ def obligations(tier):
     for pi, (p, ind) in enumerate(PAIRS):
         tag = "indent/p%d" % pi
         if pi in (0, 3):
-            for n in ([0, 1, 2] if q else [0, 1, 2, 3]):
+            for n in ([0, 1] if q and pi == 0 else [0, 1, 2] if q else [0, 1, 2, 3]):
                 L.append(ob("%s/full/n=%d" % (tag, n), "v1", "VerifC09Indent", [n, 0, "", p, ind], covers=AR if n else ["reject"], solver="z3-new" if n == 3 else "z3"))
         L.append(ob("%s/struct/n=4" % tag, "v1", "VerifC09Indent", [4, 3, "", p, ind], covers=AR))
         if not q:
             L.append(ob("%s/struct/n=5" % tag, "v1", "VerifC09Indent", [5, 3, "", p, ind], covers=AR))
             if pi < 5:
-                L.append(ob("%s/sigma24/n=5" % tag, "v1", "VerifC09Indent", [5, 1, "", p, ind], covers=AR + (["kf-region"] if pi in NONBLANK else [])))
+                L.append(ob("%s/sigma24/n=5" % tag, "v1", "VerifC09Indent", [5, 1, "", p, ind], covers=AR))
         for i, t in enumerate(IT_Q if q else IT_T):
-            c = AR + (["kf-region"] if pi in NONBLANK and i in (0, 3, 4, 8) else [])
-            L.append(ob("%s/t%d" % (tag, i), "v1", "VerifC09Indent", [0, 0, t, p, ind], covers=c))
-    if q:
-        L.append(ob("indent/p3/t3", "v1", "VerifC09Indent", [0, 0, '[?]??', ">", "x"], covers=AR + ["kf-region"]))
+            L.append(ob("%s/t%d" % (tag, i), "v1", "VerifC09Indent", [0, 0, t, p, ind], covers=AR))
     for n in ([0, 1, 2, 3] if q else [0, 1, 2, 3, 4]):
         L.append(ob("html/full/n=%d" % n, "v1", "VerifC09HTML", [n, 0, ""], covers=["verbatim"] + (["escaped"] if n else [])))
     for i, t in enumerate(HT_Q if q else HT_T):
-        L.append(ob("html/t%d" % i, "v1", "VerifC09HTML", [0, 0, t], covers=["verbatim", "escaped"]))
-    if os.environ.get("C09_EXACT"):
-        L = []
-        for pi, (p, ind) in enumerate(PAIRS + [("  ", "x"), (" >", " "), ("", " x")]):
-            if pi < 3:
-                continue
-            for i, t in enumerate(['1??', '[1]???', '{"a":1}\n? ', '1\n ??', '1????']):
-                L.append(ob("exact/p%d/t%d" % (pi, i), "v1", "VerifC09IndentExact", [0, 1, t, p, ind], covers=["accept"]))
+        L.append(ob("html/t%d" % i, "v1", "VerifC09HTML", [0, 0, t], covers=["escaped"] if any(c in t for c in ("<", ">", "&", "XYZ", "XYW")) else ["verbatim", "escaped"]))
     f = os.environ.get("C09_ONLY")
     if f:
         L = [o for o in L if f in o["id"]]
